@@ -519,6 +519,16 @@ fn record_diagram(a: &Value, extra_tags: &[&str], cx: &mut Ctx, tr: &mut Tr) {
     let path = format!("{}/rt_{}.qgraph", cx.dir, cx.count);
     let p = Path::new(&path);
     let read_back = || std::fs::read_to_string(p).map_err(|e| format!("cannot read the written file: {e}"));
+    // RE-USE of a path (seed C13_f): every third diagram is saved over a file that already holds the encoding of a BIGGER diagram
+    // (the same diagram with eight further spiders), as when a diagram is loaded, simplified and saved back
+    if cx.count % 3 == 0 {
+        let mut big = gv.clone();
+        for i in 0..8 {
+            big.add_vertex_with_phase(quizx::graph::VType::Z, num::Rational64::new(i % 8, 4));
+        }
+        let _ = quizx::json::write_graph(&big, p);
+        tags.push("over_longer_file".into());
+    }
     if cx.count % 2 == 0 {
         evs.push(roundtrip::<VecG>("file", "vec", &tags, &pre_sc, || quizx::json::write_graph(&gv, p).map_err(je).and_then(|_| read_back()),
                                    |_| quizx::json::read_graph::<VecG>(p).map_err(je)));
